@@ -240,6 +240,7 @@ def gen_scenario(seed: int, light: bool = False) -> Dict[str, Any]:
             sc["clamps"] = clamps
             sc["swing"] = True
     sc["links"] = links
+    sc["report"] = rs.sub("report").chance(0.3)  # the summary printout on or off (printing itself is silenced)
     # a mistyped link first (its follower is at no vertex): add_link refuses it, the script carries on
     br = rs.sub("badlink")
     if clamps and br.chance(0.25):
@@ -583,13 +584,13 @@ def run_scenario(sc: Dict[str, Any], clock_plan: Optional[str] = None, max_evals
             if mesh is not None:
                 for i, p in pre_moves.items():
                     mesh.vertices[i].move_to(p)
-                opt = cb.MeshOptimizer(mesh, report=False)
+                opt = cb.MeshOptimizer(mesh, report=bool(sc.get("report")))
             else:
                 newpos = [np.array(p) for p in sketch.positions]
                 for i, p in pre_moves.items():
                     newpos[i] = p
                 sketch.update(newpos)
-                opt = cb.SketchOptimizer(sketch, report=False)
+                opt = cb.SketchOptimizer(sketch, report=bool(sc.get("report")))
             grid = opt.grid
             clamp_of: Dict[int, Tuple[Dict[str, Any], Any, np.ndarray]] = {}
             for spec, i, c, p0 in clamps:
